@@ -1,4 +1,4 @@
 SPECIFICATION Spec
-CONSTANT Regress = "dup"
+CONSTANT Regress = "counts"
 INVARIANT ClausesHold
 CHECK_DEADLOCK FALSE
